@@ -19,6 +19,9 @@ TStep == \/ TReset
          \/ Ev.ev = "AddY" /\ Step(AddY(A(1)))
          \/ Ev.ev = "RemoveY" /\ Step(RemoveY(A(1)))
          \/ Ev.ev = "IterRemove" /\ Step(IterRemove(A(1)))
+         \/ Ev.ev = "AddRange" /\ Step(AddRange(A(1), A(2)))
+         \/ Ev.ev = "RemoveRange" /\ Step(RemoveRange(A(1), A(2)))
+         \/ Ev.ev = "CloneGrowBoth" /\ Step(CloneGrowBoth(A(1), A(2)))
          \/ Ev.ev = "Diff" /\ Step(Diff)
          \/ Ev.ev = "Intersect" /\ Step(Intersect)
          \/ Ev.ev = "Merge" /\ Step(Merge)
